@@ -63,7 +63,7 @@ CLAIMS = {
     "C08": (
         "abstract index-space typing (XROW / CAND / MASK(m)) of arrays and positions with one-level callee summaries",
         "Decides index-space agreement where both sides are known (subscripts and (array, position) pairs passed to project helpers) and that the raw candidates parameter is used only for representation tests "
-        "after _transform_candidates; a per-candidate scoring loop does not read the set of all candidates; the argument in the role of the given samples does not depend on the candidate representation; the number of candidates is never an operand of a score; reductions over NaN-marked arrays are NaN-aware; reads of the current model of the index wrapper precede every hypothetical refit. Restriction invariance and permutation equivariance of the numbers are not decided.",
+        "after _transform_candidates; a per-candidate scoring loop does not read the set of all candidates; the argument in the role of the given samples does not depend on the candidate representation; the number of candidates is never an operand of a score; reductions over NaN-marked arrays are NaN-aware; reads of the current model of the index wrapper precede every hypothetical refit, which starts from a private copy of the base model; the frequency classifiers normalise and fall back row by row. Restriction invariance and permutation equivariance of the numbers are not decided.",
         "Spaces are inferred only from the idioms listed in the checker; unknown never fires (few pairs are typed on today's tree).",
         "DESIGN.md section 3 C08",
     ),
@@ -78,7 +78,7 @@ CLAIMS = {
         "must-append path analysis, loop-carried-definition check of update guards, sibling agreement of simulation vs commit transition operators, RNG mirror via effect analysis",
         "Decides necessary structural conditions: lists handed to budget_manager_.update with the caller's indices get exactly one append per candidate on every path; "
         "per-instance guards in update read a spent-estimate redefined in the same loop; the set of normalised update operators (with indicator polarity) applied to each simulated "
-        "state variable equals the set committed in update; returned indices are append-only enumerate counters / np.where(mask)[0]; update advances the generator the simulation drew from; the indicator by which the simulated estimate advances is the grant condition; guarded transitions run under the same conditions in simulation and commit. "
+        "state variable equals the set committed in update; returned indices are append-only enumerate counters / np.where(mask)[0]; update advances the generator the simulation drew from; the indicator by which the simulated estimate advances is the grant condition; guarded transitions run under the same conditions in simulation and commit; a history window committed in bulk receives the simulated sequence (no re-ordering); update never stores into / mutates an object held by a constructor parameter (deep, not shallow or no copy of a budget manager); per-instance reductions recombined with an (instances x classes) matrix keep the reduced axis. "
         "Chunking invariance as an equality of whole runs is not decided.",
         "RandomVariableUncertaintyBudgetManager is outside the chunking-invariance claim and not judged by R10.2.",
         "DESIGN.md section 3 C10",
@@ -126,14 +126,14 @@ CLAIMS = {
     "C11": (
         "source -> sanitiser -> sink path analysis (class index must be decoded), must-normalise path analysis of predict_proba, sibling-statement rules",
         "Decides: in every predict a class index selected over costs/probabilities is decoded (inverse_transform / classes_[.]) before it is returned on every path; every predict_proba return path passed a row normaliser "
-        "(own row sum with keepdims, softmax, uniform constant, tiled counts) or delegates; the zero-row fallback exists; the cost matrix is permuted on both axes by the same argsort; estimator columns are re-mapped by searchsorted. "
+        "(own row sum with keepdims, softmax, uniform constant, tiled counts) or delegates; the zero-row fallback exists; the cost matrix is permuted on both axes by the same argsort; estimator columns are re-mapped by searchsorted; vote counts are built from weights that are zeroed at missing labels and at NaN confidences; every ensemble member is fitted knowing all classes on every path. "
         "Finiteness, non-negativity and sums as numbers are not decided.",
         "The wrapped estimator's predict returns labels and its predict_proba is row-normalised.",
         "DESIGN.md section 3 C11",
     ),
     "C12": (
         "path-sensitive mask-flow analysis (which per-sample arrays are restricted to labeled rows) over the fit functions of the supervised wrappers",
-        "Decides: every per-sample array reaching the wrapped estimator's fit/partial_fit, stored as training data, or passed to a call together with a masked array is subscripted by the labeled mask on every path, likewise statistics kept on self and branch conditions (raise/fallback decisions) computed from such arrays; the mask uses the configured sentinel; fit reads no fitted attribute it has not stored in the same call and never writes into X, y, sample_weight; "
+        "Decides: every per-sample array reaching the wrapped estimator's fit/partial_fit, stored as training data, or passed to a call together with a masked array is subscripted by the labeled mask on every path, likewise statistics kept on self and branch conditions (raise/fallback decisions) computed from such arrays; the mask uses the configured sentinel; a statistic over ALL rows (mean, sum, max, ...) of a per-sample array taints what it scales even if that is masked afterwards; the base validators keep the dtype of the labels until the mask exists; is_unlabeled dispatches NaN test vs. equality on the sentinel (shared with C16); fit reads no fitted attribute it has not stored in the same call and never writes into X, y, sample_weight; "
         "PWC/MixtureModel obtain label statistics only through compute_vote_vectors with the encoder sentinel. Equality of the two fits as numbers is not decided.",
         "The wrapped estimator's fit depends only on the arrays it is given.",
         "DESIGN.md section 3 C12",
